@@ -779,7 +779,12 @@ class Interp:
 
     def st_AnnAssign(self, cx, fr, st):
         if st.value is not None:
-            self.assign(cx, fr, st.target, self.eval(cx, fr, st.value))
+            v = self.eval(cx, fr, st.value)
+            if isinstance(v, dict) and not v:
+                tv = typed_empty_from_annotation(st.annotation)
+                if tv is not None:
+                    v = tv
+            self.assign(cx, fr, st.target, v)
 
     def st_AugAssign(self, cx, fr, st):
         cur = self.eval(cx, fr, _load(st.target))
@@ -1181,6 +1186,22 @@ class Interp:
     def ex_BoolOp(self, cx, fr, e):
         # python semantics: returns an operand; short-circuit via forks
         is_and = isinstance(e.op, ast.And)
+        el = getattr(cx, "elem", None)
+        if el is not None:
+            # element mode: no forks; boolean operands only; later operands' failures are guarded by reachability
+            guard = z3.BoolVal(True)
+            acc = None
+            for sub in e.values:
+                n0 = len(el.fails)
+                v = self.eval(cx, fr, sub)
+                t = truth(cx, v)
+                if not (isinstance(v, (bool, SBool)) or z3.is_bool(v)):
+                    raise Unsupported("non-boolean operand of and/or in a quantified context")
+                tb = as_bool(cx, t)
+                el.fails[n0:] = [(x, z3.And(guard, c)) for x, c in el.fails[n0:]]
+                acc = tb if acc is None else (z3.And(acc, tb) if is_and else z3.Or(acc, tb))
+                guard = z3.And(guard, tb if is_and else z3.Not(tb))
+            return SBool(acc)
         v = None
         for i, sub in enumerate(e.values):
             v = self.eval(cx, fr, sub)
@@ -1470,6 +1491,20 @@ class Interp:
         return out_l
 
 
+def typed_empty_from_annotation(ann):
+    """`x: Dict[str, int] = {}` -> symbolic map of the annotated key/value sorts (annotation used as sort hint)."""
+    from .containers import BOOL, INT, STR
+
+    if isinstance(ann, ast.Subscript) and isinstance(ann.value, ast.Name) and ann.value.id in ("Dict", "dict"):
+        sl = ann.slice
+        if isinstance(sl, ast.Tuple) and len(sl.elts) == 2 and all(isinstance(x, ast.Name) for x in sl.elts):
+            m = {"str": STR, "int": INT, "bool": BOOL}
+            kt, vt = m.get(sl.elts[0].id), m.get(sl.elts[1].id)
+            if kt is not None and vt is not None:
+                return SMap(kt, vt, name="ann")
+    return None
+
+
 def combine_and(cx, a, b):
     if isinstance(a, bool) and isinstance(b, bool):
         return a and b
@@ -1578,8 +1613,8 @@ class IterState:
         if s.kind == "range":
             lo, hi = term(s.lo), term(s.hi)
             if s.descending:
-                return z3.And(self.i >= lo - 1, z3.Or(self.i <= hi - 1, hi <= lo))
-            return z3.And(self.i >= lo, z3.Or(self.i <= hi, hi <= lo))
+                return z3.If(hi <= lo, self.i == hi - 1, z3.And(self.i >= lo - 1, self.i <= hi - 1))
+            return z3.If(hi <= lo, self.i == lo, z3.And(self.i >= lo, self.i <= hi))
         if s.kind == "seq":
             return z3.And(self.i >= 0, self.i <= s.seq.n)
         k = z3.Const(fresh_name("k_b"), s.kt.sort())
